@@ -1,4 +1,244 @@
-(* C09 - traversal and locality helpers: property theorems only. *)
+(* C09 - traversal and locality helpers: property theorems only
+   (models in Topo/Helpers.v, Topo/Distrib.v; proofs in Topo/HelpersProofs.v, Topo/DistribProofs.v).
+
+   Hypotheses are facts that wf_check (C01) establishes on every dump:
+   [tree_wf]  = children cpusets pairwise disjoint, a parent's cpuset is the union of
+                its normal children's, a childless object's cpuset is empty or a
+                single PU, arity = number of children;
+   [level_ok] = the objects of a level carry its depth and their position as logical index.
+   [wbound B] = domain hypothesis of hwloc_distrib: finite cpusets, sibling weights sum
+                to at most B, with B * (n + 1) <= 2^32 (C unsigned arithmetic does not wrap). *)
 From Coq Require Import List NArith ZArith Bool Lia.
-From HV Require Import Base.BSet Gen.Tables Topo.Dump Topo.Obj Topo.Helpers Topo.Distrib.
+From HV Require Import Base.BSet Gen.Tables Topo.Dump Topo.Obj Topo.Helpers Topo.Distrib Topo.HelpersProofs Topo.DistribProofs.
 Import ListNotations.
+Local Open Scope N_scope.
+
+(* ---------- a concrete asymmetric tree: Machine{ Package{ Core{PU0,PU1}, Core{PU2} }, PU3 } ---------- *)
+Definition mkd (id ty : N) (dp : Z) (os ar li : N) (c : N) : dobj :=
+  mkDobj id ty dp os None PNull PNull PNull PNull PNull PNull PNull ar 0 0 0 0 li None [] [] [] []
+         (Some (bs_of_N c)) (Some (bs_of_N c)) None None 0 0 (-1) (-1) (-1) (-1) (-1) (-1) (-1).
+Definition leaf (d : dobj) : obj := Obj d [] [] [] [].
+Definition ex_pu0 := leaf (mkd 3 HWLOC_OBJ_PU 3 0 0 0 1).
+Definition ex_pu1 := leaf (mkd 4 HWLOC_OBJ_PU 3 1 0 1 2).
+Definition ex_pu2 := leaf (mkd 6 HWLOC_OBJ_PU 3 2 0 2 4).
+Definition ex_pu3 := leaf (mkd 7 HWLOC_OBJ_PU 3 3 0 3 8).
+Definition ex_core0 := Obj (mkd 2 HWLOC_OBJ_CORE 2 0 2 0 3) [ex_pu0; ex_pu1] [] [] [].
+Definition ex_core1 := Obj (mkd 5 HWLOC_OBJ_CORE 2 1 1 1 4) [ex_pu2] [] [] [].
+Definition ex_pack := Obj (mkd 1 HWLOC_OBJ_PACKAGE 1 0 2 0 7) [ex_core0; ex_core1] [] [] [].
+Definition ex_root := Obj (mkd 0 HWLOC_OBJ_MACHINE 0 0 2 0 15) [ex_pack; ex_pu3] [] [] [].
+Definition ex_pus : list dobj := map odata [ex_pu0; ex_pu1; ex_pu2; ex_pu3].
+
+Example ex_tree_wf : tree_wf ex_root = true.
+Proof. vm_compute. reflexivity. Qed.
+Example ex_wbound : wbound 4 ex_root = true /\ 4 * 9 + 4 <= 2 ^ 32.
+Proof. split; [vm_compute; reflexivity|rewrite pow32; lia]. Qed.
+Example ex_level_ok : level_ok 3 ex_pus 0 = true.
+Proof. vm_compute. reflexivity. Qed.
+
+(* ---------- hwloc_get_obj_covering_cpuset / hwloc_get_child_covering_cpuset ---------- *)
+
+(* for ALL trees with the cpuset structure and ALL sets: the answer includes the
+   set and every object including the set is an ancestor-or-self of the answer
+   (so it is the deepest one); NULL exactly when the set is empty or nothing includes it *)
+Theorem covering_is_deepest_including : forall root set,
+  tree_wf root = true ->
+  match get_obj_covering_cpuset root set with
+  | Some o => set <> bs_empty /\ In o (nflatten root) /\ bs_subset set (cs o) = true /\
+              (forall a, In a (nflatten root) -> bs_subset set (cs a) = true -> In o (nflatten a))
+  | None => set = bs_empty \/ (forall a, In a (nflatten root) -> bs_subset set (cs a) = false)
+  end.
+Proof. exact covering_is_deepest_including_l. Qed.
+Print Assumptions covering_is_deepest_including.
+
+Example ex_covering :
+  option_map oid (get_obj_covering_cpuset ex_root (bs_of_N 3)) = Some 2 /\       (* {PU0,PU1} -> Core 0 *)
+  option_map oid (get_obj_covering_cpuset ex_root (bs_of_N 5)) = Some 1 /\       (* {PU0,PU2} -> Package *)
+  option_map oid (get_obj_covering_cpuset ex_root (bs_of_N 9)) = Some 0 /\       (* {PU0,PU3} -> Machine *)
+  get_obj_covering_cpuset ex_root (bs_of_N 16) = None.
+Proof. vm_compute. auto. Qed.
+
+Theorem child_covering_is_first : forall set parent,
+  match get_child_covering_cpuset set parent with
+  | Some c => set <> bs_empty /\ bs_subset set (cs c) = true /\
+              exists l1 l2, onch parent = l1 ++ c :: l2 /\ forall c', In c' l1 -> bs_subset set (cs c') = false
+  | None => set = bs_empty \/ forall c, In c (onch parent) -> bs_subset set (cs c) = false
+  end.
+Proof. exact child_covering_first. Qed.
+Print Assumptions child_covering_is_first.
+
+(* ---------- hwloc_get_largest_objs_inside_cpuset ---------- *)
+
+(* for ALL trees, sets and max: -1 iff set is not inside the root; otherwise the
+   array holds the first max objects of the unbounded search; they are objects
+   of the tree inside the set, pairwise disjoint, maximal (no strict ancestor is
+   inside the set), and their union is exactly the set unless the array was filled *)
+Theorem largest_objs_partition : forall root set max,
+  tree_wf root = true ->
+  let rc := fst (get_largest_objs_inside_cpuset root set max) in
+  let objs := snd (get_largest_objs_inside_cpuset root set max) in
+  (rc = (-1)%Z <-> bs_subset set (cs root) = false) /\
+  (bs_subset set (cs root) = true ->
+     rc = Z.of_nat (List.length objs) /\ (max <= 0 -> rc = 0)%Z /\ (0 < max -> rc <= max)%Z /\
+     objs = firstn (Z.to_nat max) (largest_all root set) /\
+     pairwise_disjoint (map cs objs) = true /\
+     (forall x, In x objs ->
+        In x (nflatten root) /\ bs_subset (cs x) set = true /\
+        forall a, In a (nflatten root) -> In x (nflattens (onch a)) -> bs_subset (cs a) set = false) /\
+     bs_subset (union_list (map cs objs)) set = true /\
+     ((rc < max)%Z -> union_list (map cs objs) = set)).
+Proof. exact largest_objs_partition_l. Qed.
+Print Assumptions largest_objs_partition.
+
+(* the recursive worker with room for max objects stores exactly the first max objects of the unbounded search *)
+Theorem largest_bounded_is_prefix : forall o set max,
+  largest_rec o set max = (firstn max (largest_all o set), (max - List.length (firstn max (largest_all o set)))%nat).
+Proof. exact largest_rec_prefix. Qed.
+Print Assumptions largest_bounded_is_prefix.
+
+Example ex_largest :
+  (let r := get_largest_objs_inside_cpuset ex_root (bs_of_N 11) 8 in (fst r, map oid (snd r))) = (2%Z, [2; 7]) /\   (* {0,1,3} = Core0 + PU3 *)
+  (let r := get_largest_objs_inside_cpuset ex_root (bs_of_N 14) 8 in (fst r, map oid (snd r))) = (3%Z, [4; 5; 7]) /\ (* {1,2,3} = PU1 + Core1 + PU3 *)
+  (let r := get_largest_objs_inside_cpuset ex_root (bs_of_N 14) 2 in (fst r, map oid (snd r))) = (2%Z, [4; 5]) /\
+  fst (get_largest_objs_inside_cpuset ex_root (bs_of_N 17) 8) = (-1)%Z.
+Proof. vm_compute. auto. Qed.
+
+(* ---------- cousin iterators ---------- *)
+
+Theorem inside_iter_exact : forall lv depth set,
+  level_ok depth lv 0 = true -> iter_inside lv depth set = filter (inside_pred set) lv.
+Proof. exact inside_iter_exact_l. Qed.
+Print Assumptions inside_iter_exact.
+
+Theorem covering_iter_exact : forall lv depth set,
+  level_ok depth lv 0 = true -> iter_covering lv depth set = filter (covering_pred set) lv.
+Proof. exact covering_iter_exact_l. Qed.
+Print Assumptions covering_iter_exact.
+
+Example ex_iterators :
+  map o_id (iter_inside ex_pus 3 (bs_of_N 13)) = [3; 6; 7] /\ map o_id (iter_covering ex_pus 3 (bs_of_N 6)) = [4; 6].
+Proof. vm_compute. auto. Qed.
+
+(* ---------- cpuset <-> nodeset ---------- *)
+
+Theorem cpuset_nodeset_locality : forall nl,
+  (level_ok HWLOC_TYPE_DEPTH_NUMANODE nl 0 = true ->
+   forall cpuset i, mem i (cpuset_to_nodeset nl cpuset) = existsb (fun o => (o_os o =? i) && bs_intersects cpuset (dcs o)) nl) /\
+  (forall nodeset j, mem j (cpuset_from_nodeset nl nodeset) = existsb (fun o => mem (o_os o) nodeset && mem j (dcs o)) nl).
+Proof.
+  intros nl. split.
+  - intros H cpuset i. now apply cpuset_to_nodeset_locality.
+  - intros nodeset j. apply cpuset_from_nodeset_locality.
+Qed.
+Print Assumptions cpuset_nodeset_locality.
+
+(* two NUMA nodes: node 0 local to PUs {0,1,2}, node 5 CPU-less *)
+Definition ex_numa : list dobj := [mkd 8 HWLOC_OBJ_NUMANODE HWLOC_TYPE_DEPTH_NUMANODE 0 0 0 7; mkd 9 HWLOC_OBJ_NUMANODE HWLOC_TYPE_DEPTH_NUMANODE 5 0 1 0].
+Example ex_nodesets :
+  level_ok HWLOC_TYPE_DEPTH_NUMANODE ex_numa 0 = true /\
+  cpuset_to_nodeset ex_numa bs_full = bs_of_N 1 /\            (* the CPU-less node is never reported *)
+  cpuset_from_nodeset ex_numa (bs_of_N 33) = bs_of_N 7.
+Proof. vm_compute. auto. Qed.
+
+(* ---------- hwloc_distrib ---------- *)
+
+(* for ALL roots (trees with the cpuset structure), ALL n >= 1, ALL until, both
+   orders, in the no-wrap domain and with some CPU below the roots: the call
+   succeeds and writes exactly n slots *)
+Theorem distrib_count : forall roots n until flags B,
+  1 <= n -> (flags = 0 \/ flags = HWLOC_DISTRIB_FLAG_REVERSE) ->
+  Forall (root_ok B) roots -> rsum roots <= B -> B * n + B <= 2 ^ 32 ->
+  (exists r, In r roots /\ fst r <> bs_empty) ->
+  exists sets, hwloc_distrib roots n until flags = (0%Z, 0, D_ok (map Some sets)) /\ N.of_nat (List.length sets) = n.
+Proof.
+  intros roots n until flags B H1 H2 H3 H4 H5 H6.
+  destruct (hwloc_distrib_good roots n until flags B H1 H2 H3 H4 H5 H6) as (sets & E & L & _). eauto.
+Qed.
+Print Assumptions distrib_count.
+
+(* ... each set is non-empty and inside the union of the roots' cpusets, and together they cover every root *)
+Theorem distrib_nonempty_included_cover : forall roots n until flags B,
+  1 <= n -> (flags = 0 \/ flags = HWLOC_DISTRIB_FLAG_REVERSE) ->
+  Forall (root_ok B) roots -> rsum roots <= B -> B * n + B <= 2 ^ 32 ->
+  (exists r, In r roots /\ fst r <> bs_empty) ->
+  exists sets, hwloc_distrib roots n until flags = (0%Z, 0, D_ok (map Some sets)) /\
+               Forall (fun s => s <> bs_empty /\ bs_subset s (roots_union roots) = true) sets /\
+               union_list sets = roots_union roots.
+Proof.
+  intros roots n until flags B H1 H2 H3 H4 H5 H6.
+  destruct (hwloc_distrib_good roots n until flags B H1 H2 H3 H4 H5 H6) as (sets & E & _ & G & U). eauto.
+Qed.
+Print Assumptions distrib_nonempty_included_cover.
+
+(* the chunk expression, exactly, where nothing wraps: consecutive differences of ceil(x*n/tot) *)
+Theorem distrib_chunk_exact : forall gw w n tot,
+  0 < tot -> gw + w <= tot -> tot * n + tot <= 2 ^ 32 ->
+  chunk_of gw w n tot = (((gw + w) * n + tot - 1) / tot) - ((gw * n + tot - 1) / tot).
+Proof. exact chunk_of_exact. Qed.
+Print Assumptions distrib_chunk_exact.
+
+Definition ex_roots : list (bset * obj) := [(cs ex_root, ex_root)].
+Example ex_distrib_hyps : Forall (root_ok 4) ex_roots /\ rsum ex_roots <= 4 /\ (exists r, In r ex_roots /\ fst r <> bs_empty).
+Proof.
+  split; [|split].
+  - constructor; [|constructor]. repeat split; vm_compute; reflexivity.
+  - vm_compute. discriminate.
+  - exists (cs ex_root, ex_root). split; [now left|]. vm_compute. discriminate.
+Qed.
+Example ex_distrib :
+  hwloc_distrib ex_roots 3 INT_MAX 0 = (0%Z, 0, D_ok [Some (bs_of_N 1); Some (bs_of_N 2); Some (bs_of_N 12)]) /\   (* PU3 gets no chunk: merged into the previous set *)
+  hwloc_distrib ex_roots 3 INT_MAX HWLOC_DISTRIB_FLAG_REVERSE = (0%Z, 0, D_ok [Some (bs_of_N 8); Some (bs_of_N 4); Some (bs_of_N 3)]) /\
+  hwloc_distrib ex_roots 5 INT_MAX 0 = (0%Z, 0, D_ok [Some (bs_of_N 1); Some (bs_of_N 1); Some (bs_of_N 2); Some (bs_of_N 4); Some (bs_of_N 8)]).   (* n > #PU: a PU is given twice *)
+Proof. vm_compute. auto. Qed.
+
+(* Interpretation remark (DESIGN 6.C09), recorded so that nobody mistakes it for
+   a defect: with a shallow [until] the distribution leaves are the objects of
+   that depth; with heterogeneous leaves two of the n sets overlap even for
+   n = number of leaves.  Here until = 1, n = 2, leaves Package{0,1,2} and PU3:
+   the Package gets ceil(3*2/4) = 2 slots, PU3 gets 0 and is merged into the second. *)
+Theorem distrib_literal_shallow_until :
+  exists roots n until,
+    hwloc_distrib roots n until 0 = (0%Z, 0, D_ok [Some (bs_of_N 7); Some (bs_of_N 15)]) /\
+    List.length (flat_map (fun r => dist_leaves until (snd r)) roots) = N.to_nat n /\
+    pairwise_disjoint [bs_of_N 7; bs_of_N 15] = false.
+Proof. exists ex_roots, 2, 1%Z. vm_compute. auto. Qed.
+Print Assumptions distrib_literal_shallow_until.
+
+(* ---------- statements that are false on the faithful model (findings, replayed on the C code by checks/c09.py) ---------- *)
+
+(* a three-object dump: Machine 0 { PU 1 ; NUMA node 2 (memory child, depth -3) } *)
+Definition ex_dump3 : dump :=
+  let m := mkd 0 HWLOC_OBJ_MACHINE 0 0 1 0 1 in
+  let pu := mkDobj 1 HWLOC_OBJ_PU 1 0 None (PId 0) PNull PNull PNull PNull PNull PNull 0 0 0 0 0 0 None [] [] [] []
+                   (Some (bs_of_N 1)) (Some (bs_of_N 1)) None None 0 0 (-1) (-1) (-1) (-1) (-1) (-1) (-1) in
+  let numa := mkDobj 2 HWLOC_OBJ_NUMANODE HWLOC_TYPE_DEPTH_NUMANODE 0 None (PId 0) PNull PNull PNull PNull PNull PNull 0 0 0 0 0 0 None [] [] [] []
+                   (Some (bs_of_N 1)) (Some (bs_of_N 1)) None None 0 0 (-1) (-1) (-1) (-1) (-1) (-1) (-1) in
+  mkDump 0 2 3 [] None None [] [] [m; pu; numa].
+
+(* "hwloc_get_common_ancestor_obj cannot return NULL" / is total: refuted.  With
+   a memory object (depth -3) and a PU the PU side climbs past the root and
+   NULL->depth is read *)
+Theorem common_ancestor_total_refuted :
+  exists d a b, get d 1 = Some a /\ get d 2 = Some b /\
+                deref d (o_parent a) <> None /\ deref d (o_parent b) <> None /\
+                get_common_ancestor_obj d b a = CA_crash /\ get_common_ancestor_obj d a b = CA_crash.
+Proof.
+  exists ex_dump3. eexists. eexists. split; [reflexivity|]. split; [reflexivity|].
+  split; [vm_compute; discriminate|]. split; [vm_compute; discriminate|]. vm_compute. auto.
+Qed.
+Print Assumptions common_ancestor_total_refuted.
+
+(* hwloc_get_closest_objs on an object with a cpuset but a negative depth indexes levels[] out of bounds *)
+Theorem closest_objs_any_cpuset_object_refuted :
+  exists d src, get d 2 = Some src /\ o_cs src <> None /\ get_closest_objs d src 4 = CL_oob.
+Proof. exists ex_dump3. eexists. split; [reflexivity|]. split; [vm_compute; discriminate|]. vm_compute. reflexivity. Qed.
+Print Assumptions closest_objs_any_cpuset_object_refuted.
+
+(* exactly n sets: false when every root is CPU-less (the call succeeds and writes nothing) *)
+Theorem distrib_count_cpuless_roots_refuted :
+  exists roots n, n = 2 /\ Forall (fun r => tree_wf (snd r) = true /\ fst r = cs (snd r)) roots /\
+                  hwloc_distrib roots n INT_MAX 0 = (0%Z, 0, D_ok [None; None]).
+Proof.
+  exists [(bs_empty, leaf (mkd 0 HWLOC_OBJ_PACKAGE 1 0 0 0 0))], 2. split; [reflexivity|].
+  split; [constructor; [split; vm_compute; reflexivity|constructor]|]. vm_compute. reflexivity.
+Qed.
+Print Assumptions distrib_count_cpuless_roots_refuted.
